@@ -60,6 +60,7 @@ func runC05(tier string, _ []string) int {
 			return []float64{math.NaN(), -math.NaN(), math.Float64frombits(0x7ff0000000000001), math.Float64frombits(0xfff8000000000123), math.Float64frombits(0x7ff4000000000000)}[r.Intn(5)]
 		}
 		classes := []string{"root-tombstone", "self-edge", "cycle", "cycle-deleted", "no-nodetype", "nan-node", "nan-edge", "nan-new-edge", "api-move-cycle", "api-mirror-cycle",
+			"nan-stale", "nan-shadowed", "nan-nodetype", "cycle-detached",
 			"legal-mirror", "legal-root-tombstone0", "legal-inf", "open-garbage-node", "open-garbage-edge", "open-root-tombstone2"}
 		for k := 0; k < perGraph; k++ {
 			class := classes[(k+i)%len(classes)]
@@ -201,6 +202,77 @@ func runC05(tier string, _ []string) int {
 					node, parent, edgeWrite = d.newID(), d.pickNode(), true
 					pts = append(pts, data.Point{Type: data.PointTypeNodeType, Text: "variable"})
 				}
+			case "nan-stale", "nan-shadowed":
+				// a NaN in a position the merge would drop anyway: older than the stored point of its
+				// identity, or shadowed by a newer point of the same identity in the same batch
+				tOld := d.now()
+				tNew := d.now()
+				id := data.Point{Type: "nanv", Key: []string{"", "0", "k"}[r.Intn(3)]}
+				legal := data.Point{Type: id.Type, Key: id.Key, Time: tNew, Value: float64(k)}
+				bad := data.Point{Type: id.Type, Key: id.Key, Time: tOld, Value: nan()}
+				onEdge := r.Chance(0.4)
+				if onEdge {
+					pp, n, ok := d.pickEdge()
+					if !ok {
+						continue
+					}
+					node, parent, edgeWrite = n, pp, true
+				} else {
+					node = d.pickNode()
+				}
+				mustRefuse = true
+				if class == "nan-stale" {
+					var e string
+					var err error
+					if onEdge {
+						e, err = d.sendEdge(node, parent, data.Points{legal})
+					} else {
+						e, err = d.sendNode(node, data.Points{legal})
+					}
+					if err != nil || e != "" {
+						c.Violate("store:legal-write-refused", fmt.Sprint("nan-stale setup: ", err, e), map[string]any{"case": i, "ops": d.Log})
+						return
+					}
+					pts = append(d.somePoints(r.Intn(3)), bad)
+				} else {
+					pts = d.somePoints(r.Intn(3))
+					if r.Chance(0.5) {
+						pts = append(pts, bad, legal)
+					} else {
+						pts = append(pts, legal, bad)
+					}
+				}
+			case "nan-nodetype":
+				node, parent, edgeWrite, mustRefuse = d.newID(), d.pickNode(), true, true
+				pts = data.Points{{Type: data.PointTypeTombstone, Time: d.now(), Value: 0}, {Type: data.PointTypeNodeType, Text: "variable", Value: nan()}}
+			case "cycle-detached":
+				// a child edge is accepted below a parent that is not attached anywhere yet (import / sync
+				// order); that parent's first edge is then aimed below its own descendant
+				det, child := d.newID(), d.newID()
+				cpts := data.Points{{Type: data.PointTypeTombstone, Time: d.now(), Value: 0}, {Type: data.PointTypeNodeType, Text: "variable"}}
+				e, err := d.sendEdge(child, det, cpts)
+				if err != nil {
+					c.Violate("refused-write:request-not-answered:"+class, fmt.Sprint("edge below a detached parent: ", err), map[string]any{"case": i, "ops": d.Log})
+					return
+				}
+				if e != "" {
+					continue // the store may refuse edges below unknown parents; then there is nothing to close
+				}
+				d.g.ApplyEdgePoints(child, det, cpts)
+				d.g.Types[child] = "variable"
+				below := child
+				if r.Chance(0.4) {
+					// one level deeper
+					gc := d.newID()
+					gpts := data.Points{{Type: data.PointTypeTombstone, Time: d.now(), Value: 0}, {Type: data.PointTypeNodeType, Text: "variable"}}
+					if e, err := d.sendEdge(gc, child, gpts); err == nil && e == "" {
+						d.g.ApplyEdgePoints(gc, child, gpts)
+						d.g.Types[gc] = "variable"
+						below = gc
+					}
+				}
+				node, parent, edgeWrite, mustRefuse = det, below, true, true
+				pts = data.Points{{Type: data.PointTypeTombstone, Time: d.now(), Value: 0}, {Type: data.PointTypeNodeType, Text: "group"}}
 			case "legal-mirror":
 				node = d.pickNode()
 				parent = d.pickNode()
